@@ -34,7 +34,10 @@ impl<T> ResourceStorage<T> {
 	#[must_use]
 	pub fn new(capacity: usize) -> (Self, ResourceController<T>) {
 		let (new_resource_producer, new_resource_consumer) = RingBuffer::new(capacity);
-		let (unused_resource_producer, unused_resource_consumer) = RingBuffer::new(capacity);
+		// one more than the capacity: a resource is removed from the arena (freeing its
+		// slot for the next creation) just before it is pushed here, so a creation that
+		// runs in between can leave capacity + 1 resources waiting to be dropped
+		let (unused_resource_producer, unused_resource_consumer) = RingBuffer::new(capacity + 1);
 		let resources = Arena::new(capacity);
 		let arena_controller = resources.controller();
 		(
@@ -111,7 +114,10 @@ impl<T> SelfReferentialResourceStorage<T> {
 		T: Default,
 	{
 		let (new_resource_producer, new_resource_consumer) = RingBuffer::new(capacity);
-		let (unused_resource_producer, unused_resource_consumer) = RingBuffer::new(capacity);
+		// one more than the capacity: a resource is removed from the arena (freeing its
+		// slot for the next creation) just before it is pushed here, so a creation that
+		// runs in between can leave capacity + 1 resources waiting to be dropped
+		let (unused_resource_producer, unused_resource_consumer) = RingBuffer::new(capacity + 1);
 		let resources = Arena::new(capacity);
 		let arena_controller = resources.controller();
 		(
